@@ -101,6 +101,35 @@ Section RmR32NoFlags.
     - exact W.
   Qed.
 
+  (* the moffs encoding (A0..A3: accumulator and an absolute address): the same helper call *)
+  Theorem mov_moffs32_eax_exact :
+    i_code i = C_Mov_moffs32_EAX ->
+    match read_op i 0 32 s with
+    | Some _ =>
+        match isa_exec (SMov 32) i s with
+        | IDone s' u => instr_mov_moffs32_eax c i s = (Ok tt, s') /\ u = 0
+        | IFault FMem => exists e, instr_mov_moffs32_eax c i s = (Err e, s)
+        | IFault _ => False
+        end
+    | None => exists e, instr_mov_moffs32_eax c i s = (Err e, s)
+    end.
+  Proof.
+    intros Ec. unfold instr_mov_moffs32_eax. rewrite Ec.
+    rewrite (bind_ok _ _ _ _ _ (dbg_code_ok c s _ eq_refl)).
+    pose proof (calc_rm_r_32_shape (fun _ v_s => Ok v_s) FLAGS_UNAFFECTED 0) as SH.
+    destruct (read_op i 0 32 s) as [d|]; [|exact SH]. destruct SH as [Hd SH].
+    rewrite (SH _ eq_refl). rewrite (bind_ok _ _ _ _ _ (set_flags32_unaffected c _ s)).
+    change (Z.land FLAGS_UNAFFECTED NO_WRITEBACK =? 0) with true. cbv iota.
+    cbn [isa_exec]. unfold read_op. rewrite K1. rewrite rf_read_mod32 by exact H1. fold r1 sv.
+    assert (Hsv : 0 <= sv < 2 ^ 32) by (apply rf_read_range32; exact H1).
+    assert (RS : Alu32P.rm32_shape i 0) by exact Hs0.
+    pose proof (dest_write32_spec c i s Hwf HI Hn RS (rflags s) sv Hsv) as W. cbv zeta in W.
+    assert (SS : set_rflags s (rflags s) = s) by (destruct s; reflexivity). rewrite SS in W.
+    destruct (write_op i 0 32 sv s) as [s2|]; cbn [opt_done].
+    - rewrite W. split; reflexivity.
+    - exact W.
+  Qed.
+
   Theorem xor_rm32_r32_refines :
     0 <= rflags s < 2 ^ 64 -> i_code i = C_Xor_rm32_r32 -> rmw32_refines i s XOR (instr_xor_rm32_r32 c i s).
   Proof.
